@@ -547,6 +547,10 @@ fn arms_family() {
         ("(l(u2)+u2)xu1", Value::product(Value::left(Value::u2(2), u(1)), Value::u1(1))),
         ("(l(1)+u4)x1", Value::product(Value::left(Value::unit(), u(2)), Value::unit())),
         ("(1+r(u4))xu8", Value::product(Value::right(Final::unit(), Value::u4(9)), Value::u8(0x3c))),
+        ("(l(1)+u8)x(u8xu8)", Value::product(Value::left(Value::unit(), u(3)), Value::product(Value::u8(0x5a), Value::u8(0xa5)))),
+        ("(1+r(u8))x(u8xu8)", Value::product(Value::right(Final::unit(), Value::u8(0x77)), Value::product(Value::u8(0x01), Value::u8(0x80)))),
+        ("(l(u4)+u2)x(u2xu1)", Value::product(Value::left(Value::u4(0xd), u(1)), Value::product(Value::u2(1), Value::u1(1)))),
+        ("(u4+r(u2))x(u2xu1)", Value::product(Value::right(u(2), Value::u2(2)), Value::product(Value::u2(3), Value::u1(0)))),
     ];
     type B = dyn for<'b> Fn(&Context<'b>) -> CN<'b>;
     let progs: Vec<(&str, Box<B>)> = vec![
@@ -567,6 +571,17 @@ fn arms_family() {
             let s = CN::pair(&CN::injr(&CN::take(&CN::iden(ctx))), &CN::drop_(&CN::iden(ctx))).unwrap();
             let t = CN::pair(&CN::injl(&CN::take(&CN::iden(ctx))), &CN::drop_(&CN::iden(ctx))).unwrap();
             CN::pair(&CN::case(&s, &t).unwrap(), &CN::drop_(&CN::iden(ctx))).unwrap()
+        })),
+        ("pair(case(drop(take iden),drop(take iden)),drop(take iden))", Box::new(|ctx| {
+            let l = CN::drop_(&CN::take(&CN::iden(ctx)));
+            let r = CN::drop_(&CN::take(&CN::iden(ctx)));
+            CN::pair(&CN::case(&l, &r).unwrap(), &CN::drop_(&CN::take(&CN::iden(ctx)))).unwrap()
+        })),
+        ("pair(case(drop(drop iden),drop(drop iden)),pair(drop(drop iden),take iden))", Box::new(|ctx| {
+            let l = CN::drop_(&CN::drop_(&CN::iden(ctx)));
+            let r = CN::drop_(&CN::drop_(&CN::iden(ctx)));
+            let rest = CN::pair(&CN::drop_(&CN::drop_(&CN::iden(ctx))), &CN::take(&CN::iden(ctx))).unwrap();
+            CN::pair(&CN::case(&l, &r).unwrap(), &rest).unwrap()
         })),
         ("comp(pair(iden,iden),pair(drop(drop iden),take(take iden)))", Box::new(|ctx| {
             let d = CN::pair(&CN::iden(ctx), &CN::iden(ctx)).unwrap();
@@ -607,6 +622,10 @@ fn arms_family() {
             let r = std::panic::catch_unwind(std::panic::AssertUnwindSafe(|| -> Result<(bool, String), String> {
                 let redeem = Context::with_context(|ctx| {
                     let p = build(&ctx);
+                    // pin P's source type to the input's type: scribe alone leaves the summand that
+                    // is not taken free (it would be inferred as unit and the sum would lose its padding)
+                    let ty = simplicity::types::Type::complete(&ctx, Arc::new(input.ty().clone()));
+                    ctx.unify(&p.arrow().source, &ty, "pin source type").map_err(|e| e.to_string())?;
                     let full = CN::comp(&CN::scribe(&ctx, input), &p).map_err(|e| e.to_string())?;
                     full.finalize_unpruned().map_err(|e| e.to_string())
                 })?;
